@@ -12,7 +12,7 @@ type glslRules struct {
 }
 
 func (r *glslRules) userMayRedeclareBuiltin() bool { return !r.fe.es }
-func (r *glslRules) returnConverts() bool         { return !r.fe.es }
+func (r *glslRules) returnConverts() bool          { return !r.fe.es }
 func (r *glslRules) namedType(name string) (*Type, bool) {
 	return r.fe.builtinType(name)
 }
@@ -437,7 +437,7 @@ var glslComputeVars = map[string]struct {
 	"gl_LocalInvocationIndex": {bvLocalInvocationIndex, tUint},
 }
 
-func (r *glslRules) builtinVar(c *checker, name string) *Symbol {
+func (r *glslRules) builtinVar(c *checker, pos Pos, name string) *Symbol {
 	if !strings.HasPrefix(name, "gl_") {
 		return nil
 	}
@@ -458,7 +458,7 @@ func (r *glslRules) builtinVar(c *checker, name string) *Symbol {
 		}
 		return s
 	}
-	c.unsupported(Pos{}, "built-in variable %s", name)
+	c.unsupported(pos, "built-in variable %s", name)
 	return nil
 }
 
